@@ -24,8 +24,11 @@ times), so state kept in module globals / caches is exercised as well.  Every vi
 shortest event trace from an initial state and is re-executed from scratch on a fresh directory (no snapshots, no
 restore) before it is recorded.
 """
+import builtins
 import collections
 import copy
+import errno
+import io
 import itertools
 import os
 import random
@@ -48,7 +51,13 @@ RULE = ("explicit-state BFS to closure over the real directory tree: one case = 
         "states (states reached outside a unit's component are counted in counters.states_outside_unit_component, "
         "0 on the unchanged tree); the one-process units enumerate every event sequence up to a length bound from "
         "a few initial states without resetting module state, one case = one sequence judged at its last event "
-        "(not counted as states); a case is non-trivial when the (last) event changed the tree or returned an identifier")
+        "(not counted as states); a case is non-trivial when the (last) event changed the tree or returned an identifier; "
+        "fault units: closure over (canonical state, marker event) AND (canonical state, marker event, k, fault kind) for "
+        "every k up to the number of file-system mutations the un-faulted event performed in that state (measured through "
+        "the interception seam), the state a faulted event leaves is a state of the search like any other; these units "
+        "re-visit marker layouts of the main components with the identifier absent (their states are counted again), they "
+        "are partitioned by the location of a real directory at a marker location (no event can move it); a faulted case "
+        "is non-trivial when the fault fired (always, by construction; counters.faulted_transitions)")
 ASSUMPTIONS = [
     "identifier VALUES are abstracted to (spelling class, equal to the last returned id or not, last returned id is the "
     "subscription identity or not): the code under test never compares or branches on an identifier's value beyond "
@@ -63,7 +72,17 @@ ASSUMPTIONS = [
     "attributes of InsightsConstants (these are reset between modelled client runs); the file system is the only "
     "other memory",
     "the tree lives on tmpfs (/dev/shm); files are aged to a fixed old mtime before every event so that any rewrite "
-    "is visible in mtime_ns; the checks run as root, so permission failures are not modelled",
+    "is visible in mtime_ns; the checks run as root, so permission failures are not produced by the file system itself",
+    "fault units: the only doors to the file system are os.remove/unlink/rmdir/rename/replace/symlink/link/mkdir/truncate, "
+    "os.open with a writing flag and open/io.open with a writing mode (composite helpers of os, shutil, pathlib, tempfile "
+    "go through them); exactly one fault per event: the k-th mutation below the tree's root does not happen and raises "
+    "OSError(EPERM | EROFS | EIO) or kills the run (an exception no handler catches; every later mutation of the same "
+    "run is refused too). ENOENT is not a fault kind (a removal that reports ENOENT says the file is already gone). "
+    "A real directory at a marker location (empty / non-empty) is the one non-file kind admitted, in the fault units only, "
+    "as an un-mocked way of making the real os.remove fail; an entry of any kind at a marker location counts as that marker",
+    "after an operation that its environment cut short (injected fault fired, or it raised with a real directory at a "
+    "marker location) only preservation is demanded: a layout with no directory holding both markers does not become one "
+    "with both (weaker global reading), and symlink targets stay untouched; an operation that completes is judged in full",
 ]
 
 # The pre-existing identifier MUST contain hex letters: the first version used 11111111-2222-4333-8444-555555555555,
@@ -136,6 +155,11 @@ MARKER_KINDS = {"absent": None, "file": ("f", "M"), "link": ("l", T_OK), "dangli
                 "efile": ("f", ""), "link_mid": ("l", T_MID), "link_dir": ("l", T_DIR)}
 MK_BASE = ["absent", "file", "link", "dangling"]
 MK_EXOTIC = ["efile", "link_mid", "link_dir"]
+# the fault part only: a REAL directory occupies a marker location (non-empty / empty). Nothing the code under test does can
+# remove it (os.remove of a directory fails with EISDIR), so it is an environment fault that needs no interception at all.
+MARKER_KINDS["dir_ne"] = ("d", "keep")
+MARKER_KINDS["dir"] = ("d", "")
+MK_DIR = ["dir_ne", "dir"]
 
 # subscription identity answers (environment, chosen per call)
 ANSWERS = collections.OrderedDict([
@@ -151,6 +175,15 @@ ANSWERS = collections.OrderedDict([
 NO_IDENTITY = ("none", "empty", "err")
 QUICK_ANSWERS = ["none", "B", "empty", "BHEX", "BUP"]
 MARKER_EVENTS = ["reg", "unreg", "delreg", "delunreg"]
+FAULT_KINDS = collections.OrderedDict([
+    # what the k-th file-system mutation does instead of happening. ENOENT is deliberately not a kind: a removal that
+    # fails with ENOENT says the file is gone, which is not a fault (the code under test ignores exactly that one).
+    ("EPERM", errno.EPERM),      # immutable file / SELinux denial (PermissionError)
+    ("kill", None),              # the process dies right before the mutation
+    ("EROFS", errno.EROFS),      # read-only (bind) mount: a plain OSError
+    ("EIO", errno.EIO),
+])
+QUICK_FAULTS = ["EPERM", "kill", "EROFS"]
 
 
 def id_events(answers):
@@ -167,6 +200,7 @@ PLANT_MID = ["plant:mid:t", "plant:mid:x"]
 # plantings are events, machine-id link / no link are separate units. "extra": other directory shapes with a reduced set
 # of initial layouts, identifier-location plantings as events, no marker plantings (the links are in the initial layouts).
 MAIN_DIRS = [(1, 1), (1, 0), (0, 1), (0, 0)]
+FAULT_DIRS = [(1, 1), (1, 0), (0, 1)]
 EXTRA = [  # (dirs, order)
     ((1, 1), "rev"),          # the two lists name the legacy directory first
     ((2, 1), "fwd"), ((1, 2), "fwd"),       # a configuration directory that is a symlink to a directory
@@ -186,11 +220,18 @@ BOUNDS = {
                                   "events, 2 identifier-location plantings" % (EXTRA, SMALL_MID, MK_EXOTIC),
               "one_process": "all event sequences of length <= 3 over read/new x {none,B}, reg, unreg, delreg, delunreg from "
                              "8 initial states, module state not reset inside a sequence",
+              "fault_units": "marker events reg/unreg/delreg/delunreg, each also with a fault at its k-th file-system mutation for "
+                             "EVERY k (1..number of mutations of the un-faulted event in that state, max measured in "
+                             "counters.max_mutations_of_one_event) x fault kinds %s; directories %s: every combination of {absent, "
+                             "file, symlink->file, dangling symlink} at every marker location, and the same with a real directory "
+                             "(%s) at one location; shapes %s: reduced layouts + a real directory at one location; identifier "
+                             "absent, no identifier events" % (QUICK_FAULTS, FAULT_DIRS, MK_DIR, EXTRA),
               "depth": "closure (unbounded)"},
     "thorough": {"main_components": "as quick with machine-id kinds %s, all answers %s, plus every layout with one exotic "
                                     "kind %s at one location and any base kinds elsewhere" % (list(MID_KINDS), list(ANSWERS), MK_EXOTIC),
                  "extra_components": "as quick with all machine-id kinds and all answers",
                  "one_process": "length <= 5",
+                 "fault_units": "as quick with fault kinds %s" % list(FAULT_KINDS),
                  "depth": "closure (unbounded)"},
 }
 CAP_S = {"quick": 300, "thorough": 2400}
@@ -310,6 +351,7 @@ class _Seam(object):
             return _Cert(a)
         cert_auth.rhsmCertificate.read = classmethod(read)
         self.hidden = Hidden(U, C, ("registered_files", "unregistered_files"))
+        self.faults = _Faults(U)
 
     def uuid4(self):
         n = self.ctr
@@ -330,6 +372,116 @@ class _Seam(object):
             self._pkey, self._r, self._u = key, r, u
         self.C.registered_files = list(self._r)
         self.C.unregistered_files = list(self._u)
+
+
+class _Killed(BaseException):
+    """The modelled client run is dead (SIGKILL / power loss): no handler of the code under test catches this, and every
+    later file-system mutation of the same run is refused as well (finally-blocks cannot repair anything)."""
+
+
+_WRITE_FLAGS = os.O_WRONLY | os.O_RDWR | os.O_CREAT | os.O_TRUNC | os.O_APPEND
+
+
+class _Faults(object):
+    """Owns every door through which Python code mutates the file system: os.remove / unlink / rmdir / rename / replace /
+    symlink / link / mkdir / truncate, os.open with a writing flag, open / io.open with a writing mode (the composite
+    helpers of os, shutil, pathlib and tempfile go through these). The wrappers are installed only while an event of the
+    code under test runs (arm .. disarm), count the mutations that address a path below the tree's root, and make the
+    k-th one fail. Nothing here names a function of the code under test."""
+
+    OS_PATH_FUNCS = ("remove", "unlink", "rmdir", "rename", "replace", "symlink", "link", "mkdir", "truncate")
+
+    def __init__(self, module):
+        self.module = module
+        self.count = 0
+        self.fail_at = 0
+        self.kind = None
+        self.fired = None
+        self.dead = False
+        self.root = None
+        self.patches = []          # (owner, attribute, original, wrapper)
+        origs = {}
+        for name in self.OS_PATH_FUNCS:
+            orig = getattr(os, name)
+            # symlink(src, dst) / link(src, dst): the mutated path is the second argument
+            w = self._wrap("os." + name, orig, self._path_arg(1 if name in ("symlink", "link") else 0))
+            self.patches.append((os, name, orig, w))
+            origs[id(orig)] = (orig, w)
+        w = self._wrap("os.open", os.open, self._os_open_arg)
+        self.patches.append((os, "open", os.open, w))
+        origs[id(os.open)] = (os.open, w)
+        w = self._wrap("open", builtins.open, self._open_arg)
+        self.patches.append((builtins, "open", builtins.open, w))
+        self.patches.append((io, "open", io.open, w))
+        origs[id(builtins.open)] = (builtins.open, w)
+        # `from os import remove` style bindings inside the module under test
+        for k, v in list(vars(module).items()):
+            hit = origs.get(id(v))
+            if hit is not None and hit[0] is v:
+                self.patches.append((module, k, v, hit[1]))
+
+    @staticmethod
+    def _path_arg(pos):
+        def get(a, kw):
+            if len(a) > pos:
+                return a[pos]
+            return kw.get("dst", kw.get("path"))
+        return get
+
+    @staticmethod
+    def _os_open_arg(a, kw):
+        flags = a[1] if len(a) > 1 else kw.get("flags", 0)
+        return (a[0] if a else kw.get("path")) if (flags & _WRITE_FLAGS) else None
+
+    @staticmethod
+    def _open_arg(a, kw):
+        mode = a[1] if len(a) > 1 else kw.get("mode", "r")
+        if not isinstance(mode, str) or not (set(mode) & set("wax+")):
+            return None
+        return a[0] if a else kw.get("file")
+
+    def _wrap(self, name, orig, path_of):
+        me = self
+
+        def wrapper(*a, **kw):
+            if me.root is not None:
+                p = path_of(a, kw)
+                if p is not None and me._below_root(p, kw):
+                    if me.dead:
+                        raise _Killed()
+                    me.count += 1
+                    if me.count == me.fail_at:
+                        me.fired = name
+                        if me.kind == "kill":
+                            me.dead = True
+                            raise _Killed()
+                        code = FAULT_KINDS[me.kind]
+                        raise OSError(code, os.strerror(code), p if isinstance(p, str) else None)
+            return orig(*a, **kw)
+        wrapper.__name__ = getattr(orig, "__name__", name)
+        return wrapper
+
+    def _below_root(self, p, kw):
+        if kw.get("dir_fd") is not None or kw.get("dst_dir_fd") is not None:
+            return True
+        try:
+            p = os.fspath(p)
+        except TypeError:
+            return False                 # a file descriptor: the open that produced it was the mutation
+        if isinstance(p, bytes):
+            p = p.decode("latin-1")
+        return os.path.abspath(p).startswith(self.root + os.sep)
+
+    def arm(self, root, fail_at=0, kind=None):
+        self.root, self.count, self.fail_at, self.kind, self.fired, self.dead = root, 0, fail_at, kind, None, False
+        for owner, attr, _, w in self.patches:
+            setattr(owner, attr, w)
+
+    def disarm(self):
+        for owner, attr, orig, _ in self.patches:
+            setattr(owner, attr, orig)
+        self.root = None
+        return self.count, self.fired
 
 
 _SEAM = None
@@ -428,6 +580,9 @@ class World(object):
                             with open(e.path, "rb") as fh:
                                 ents[rel] = ("f", fh.read().decode("latin-1"), st.st_mtime_ns)
                         newmeta[rel] = m
+                    elif stat.S_ISDIR(st.st_mode):
+                        # a real directory at a marker / identifier location: kept with the names it holds
+                        ents[rel] = ("d", ",".join(sorted(os.listdir(e.path))), 0)
                     else:
                         ents[rel] = ("x", "", 0)
         self.cur = ents
@@ -453,6 +608,11 @@ class World(object):
                 st = os.fstat(fh.fileno())
             os.utime(path, ns=(OLD_NS, OLD_NS))
             self.meta[rel] = (st.st_ino, st.st_size)
+        elif ent[0] == "d":
+            os.mkdir(path)
+            for name in [x for x in ent[1].split(",") if x]:
+                with open(os.path.join(path, name), "wb"):
+                    pass
         else:
             raise ValueError("cannot create %r" % (ent,))
 
@@ -611,13 +771,15 @@ def canon(dirs, ents, last):
             else:
                 items.append((rel, "f", "empty" if data == "" else "nonempty"))
         else:
-            items.append((rel, k, ""))
+            items.append((rel, k, data if k == "d" else ""))
     return (tuple(dirs), tuple(items), last is not None, last == UB)
 
 
 def component(ents, split_mid):
     """Part of the state no event of a unit can change on the unchanged tree (beyond the directory shape, which is
     fixed per unit): in the main components, whether the identifier location is a symlink."""
+    if split_mid == "dirs-at-markers":
+        return ",".join(sorted(rel for rel, e in ents.items() if e[0] == "d" and not rel.startswith("tg"))) or "none"
     if not split_mid:
         return "any"
     e = ents.get(MID)
@@ -626,9 +788,19 @@ def component(ents, split_mid):
 
 # ---- events and oracle ---------------------------------------------------------------------------
 
+def split_fault(ev):
+    """"reg!2!EPERM" -> ("reg", (2, "EPERM")): the marker event `reg` whose 2nd file-system mutation fails with EPERM."""
+    if "!" not in ev:
+        return ev, None
+    base, k, kind = ev.split("!")
+    if base not in MARKER_EVENTS or kind not in FAULT_KINDS or int(k) < 1:
+        raise ValueError("unknown faulted event %r" % ev)
+    return base, (int(k), kind)
+
+
 def enabled(world, ev):
     if not ev.startswith("plant:"):
-        return True
+        return True            # a faulted event whose fault point does not exist is refused after the fact (step)
     name = ev.split(":")[1]
     if name == "mid":
         return world.usable(0) and MID not in world.cur
@@ -639,7 +811,16 @@ def apply_event(world, ev):
     """Calls the real function (or makes the environment move). Returns the observation."""
     s = seam()
     U = s.U
+    ev, fault = split_fault(ev)
+    world.mutations, world.fired = 0, None
     parts = ev.split(":")
+    if ev in MARKER_EVENTS:
+        # the marker functions run with every mutating file-system call counted (and the k-th one failing)
+        s.faults.arm(world.root, *(fault or (0, None)))
+        try:
+            return _apply_marker(U, ev)
+        finally:
+            world.mutations, world.fired = s.faults.disarm()
     if parts[0] == "plant":
         if parts[1] == "mid":
             os.symlink(T_IDS if parts[2] == "t" else T_IDNO, world.p(MID))
@@ -671,6 +852,23 @@ def apply_event(world, ev):
     return ("ok", None)
 
 
+def _apply_marker(U, ev):
+    try:
+        if ev == "reg":
+            U.write_registered_file()
+        elif ev == "unreg":
+            U.write_unregistered_file()
+        elif ev == "delreg":
+            U.delete_registered_file()
+        else:
+            U.delete_unregistered_file()
+    except _Killed:
+        return ("killed", None)
+    except Exception as ex:          # the real function raised: an observation, not a verdict
+        return ("raised", type(ex).__name__)
+    return ("ok", None)
+
+
 def body(ent):
     return None if ent is None else [ent[0], ent[1]]
 
@@ -679,13 +877,23 @@ def both_present(ents, n):
     return [i for i in range(n) if reg_paths(n)[i] in ents and unreg_paths(n)[i] in ents]
 
 
-def judge(ev, before, after, obs, last, n):
-    """The oracle for one transition. Returns (violations [(clause, expected, observed, features)], new last id)."""
+def judge(ev, before, after, obs, last, n, fired=None):
+    """The oracle for one transition. Returns (violations [(clause, expected, observed, features)], new last id).
+    `fired`: the file-system call at which an injected fault fired during the event, or None."""
     out = []
+    ev, fault = split_fault(ev)
+    REG, UNREG = reg_paths(n), unreg_paths(n)
+    # The operation was cut short by its ENVIRONMENT: an injected fault fired, or it raised while a real directory sits
+    # at a marker location (the real os.remove cannot succeed on it). The statement's "after any sequence of register and
+    # unregister operations" then promises less: the operation did not take place as a whole, so nothing says it repairs
+    # a layout that was incoherent before. What "never exist together" still demands - and what the delete-first order
+    # of the code guarantees at every instant - is that a coherent layout does not become incoherent (weaker, global
+    # reading: no directory held both markers before). An operation that completes is judged as before.
+    dir_at_marker = sorted(rel for rel in REG + UNREG if rel in before and before[rel][0] == "d")
+    cut_short = fired is not None or (obs[0] in ("raised", "killed") and bool(dir_at_marker))
     parts = ev.split(":")
     base = parts[0]
     new_last = last
-    REG, UNREG = reg_paths(n), unreg_paths(n)
     if base in ("read", "new"):
         idf = id_file(before)
         stored = forced_v4(before[idf][1]) if idf is not None else None
@@ -720,7 +928,14 @@ def judge(ev, before, after, obs, last, n):
                             {"entry": list(before[idf])},
                             {"entry": list(after[idf]) if idf in after else None},
                             {"content_changed": not same}))
-    if base in ("reg", "unreg"):
+    if cut_short:
+        if not both_present(before, n):
+            for i in both_present(after, n):
+                out.append(("markers:both-present-after-fault", "at most one marker in etc%d" % (i + 1),
+                            {REG[i]: body(after[REG[i]]), UNREG[i]: body(after[UNREG[i]])},
+                            {"by": base, "fault": fault[1] if fault else "directory-at-marker-location",
+                             "at_call": fired or "none", "ended": obs[0]}))
+    elif base in ("reg", "unreg"):
         for i in both_present(after, n):
             out.append(("markers:both-present", "at most one marker in etc%d" % (i + 1),
                         {REG[i]: body(after[REG[i]]), UNREG[i]: body(after[UNREG[i]])},
@@ -743,7 +958,7 @@ def judge(ev, before, after, obs, last, n):
                 out.append(("markers:symlink-followed", {t: body(before.get(t))}, {t: body(after.get(t))},
                             {"dangling": t not in before and t != "tg",
                              "link_at": "written" if rel in written else "deleted", "by": base}))
-            if rel in written:
+            if rel in written and not cut_short:
                 a = after.get(rel)
                 if a is None or a[0] != "f":
                     out.append(("markers:symlink-not-replaced", "regular file at " + rel,
@@ -756,12 +971,14 @@ def step(world, ev, last):
     before = world.cur
     obs = apply_event(world, ev)
     after = world.snapshot()
-    viols, new_last = judge(ev, before, after, obs, last, world.n)
+    if "!" in ev and world.fired is None:
+        raise ValueError("fault point of %r does not exist (the event performs %d mutations)" % (ev, world.mutations))
+    viols, new_last = judge(ev, before, after, obs, last, world.n, world.fired)
     return obs, after, viols, new_last
 
 
 def case_features(init, trace, mode):
-    f = {"id_dir_present": init["dirs"][0] in (1, 2), "event": trace[-1].split(":")[0]}
+    f = {"id_dir_present": init["dirs"][0] in (1, 2), "event": trace[-1].split(":")[0].split("!")[0]}
     if mode != "runs":
         f["mode"] = mode
     return f
@@ -862,8 +1079,59 @@ def reduced_layouts(dirs):
     return out
 
 
+def fault_layouts(dirs, dirloc):
+    """Fault part, two-directory shapes: every combination of the base kinds at every marker location of a usable
+    directory; with dirloc = [location, kind] that location holds a real directory instead."""
+    n = len(dirs)
+    locs = [(m, i) for i in range(n) for m in ("reg", "unreg") if _usable(dirs)[i]]
+    fixed = None
+    if dirloc is not None:
+        fixed = (dirloc[0][:-1], int(dirloc[0][-1]) - 1)
+        if fixed not in locs:
+            return []
+        locs.remove(fixed)
+    out = []
+    for kinds in itertools.product(MK_BASE, repeat=len(locs)):
+        lay = {"reg": ["absent"] * n, "unreg": ["absent"] * n}
+        for (m, i), k in zip(locs, kinds):
+            lay[m][i] = k
+        if fixed is not None:
+            lay[fixed[0]][fixed[1]] = dirloc[1]
+        out.append((lay["reg"], lay["unreg"]))
+    return out
+
+
+def fault_kinds(unit, tier):
+    if unit["part"] != "fault":
+        return []
+    return list(FAULT_KINDS) if tier == "thorough" else QUICK_FAULTS
+
+
+def fault_unit_spec(unit, tier):
+    dirs = tuple(unit["dirs"])
+    n = len(dirs)
+    extra = {}
+    if unit.get("order", "fwd") != "fwd":
+        extra["order"] = unit["order"]
+    if unit["layouts"] == "full":
+        layouts = fault_layouts(dirs, unit.get("dirloc"))
+    else:
+        layouts = reduced_layouts(dirs)
+        for j in range(n):
+            if _usable(dirs)[j]:
+                for x in MK_DIR:           # a real directory at one location, everything else absent
+                    layouts.append((["absent"] * n, [x if i == j else "absent" for i in range(n)]))
+                    layouts.append(([x if i == j else "absent" for i in range(n)], ["absent"] * n))
+    # the marker functions never touch the identifier file: it is absent here, the identifier events are not part of
+    # these units (the main / extra components have them)
+    inits = [dict({"dirs": list(dirs), "mid": "absent", "reg": r, "unreg": u}, **extra) for (r, u) in layouts]
+    return inits, list(MARKER_EVENTS)
+
+
 def unit_spec(unit, tier):
     """(initial states, events) of a closure unit."""
+    if unit["part"] == "fault":
+        return fault_unit_spec(unit, tier)
     dirs = tuple(unit["dirs"])
     order = unit.get("order", "fwd")
     n = len(dirs)
@@ -925,6 +1193,16 @@ def units(tier, seed):
                 us.append(u)
     for dirs, order in EXTRA:
         us.append({"part": "extra", "dirs": list(dirs), "order": order, "seed": seed})
+    for dirs in FAULT_DIRS:
+        us.append({"part": "fault", "dirs": list(dirs), "layouts": "full", "seed": seed})
+        for i, d in enumerate(dirs):
+            if d in (1, 2):
+                for m in ("reg", "unreg"):
+                    for x in MK_DIR:
+                        us.append({"part": "fault", "dirs": list(dirs), "layouts": "full",
+                                   "dirloc": ["%s%d" % (m, i + 1), x], "seed": seed})
+    for dirs, order in EXTRA:
+        us.append({"part": "fault", "dirs": list(dirs), "order": order, "layouts": "reduced", "seed": seed})
     for i in range(len(OP_INITS)):
         for ev in OP_EVENTS:
             us.append({"part": "one-process", "init": i, "first": ev, "max_len": 3 if tier == "quick" else 5})
@@ -932,6 +1210,8 @@ def units(tier, seed):
 
 
 def unit_weight(u):
+    if u["part"] == "fault":
+        return 60 * len(u["dirs"]) if u["layouts"] == "reduced" else (150 if "dirloc" not in u else 40)
     if u["part"] == "main":
         return 4 ** (2 * sum(1 for d in u["dirs"] if d)) * (3 if u["mid_class"] == "nolink" else 2)
     if u["part"] == "extra":
@@ -954,6 +1234,11 @@ def run_unit(unit, tier):
     order = unit.get("order", "fwd")
     split_mid = unit["part"] == "main"
     comp = unit.get("mid_class", "any")
+    fkinds = fault_kinds(unit, tier)
+    if unit["part"] == "fault" and unit["layouts"] == "full":
+        # a directory at a marker location cannot be removed or created by the code: where one sits never changes
+        split_mid = "dirs-at-markers"
+        comp = marker_path(unit["dirloc"][0]) if unit.get("dirloc") else "none"
     rng = random.Random(unit.get("seed", 0))
     inits, events = unit_spec(unit, tier)
     rng.shuffle(inits)                               # the seed permutes visiting order only
@@ -998,15 +1283,36 @@ def run_unit(unit, tier):
             i = frontier.popleft()
             ents, last, ctr, _, _, depth, _ = nodes[i]
             max_depth = max(max_depth, depth)
-            for ev in events:
+            todo = collections.deque(events)
+            while todo:
+                ev = todo.popleft()
                 w.sync(ents)
                 if not enabled(w, ev):
                     continue
                 s.ctr = ctr
                 s.hidden.reset()                  # a new client run
                 w.point()
-                obs, after, viols, new_last = step(w, ev, last)
+                try:
+                    obs, after, viols, new_last = step(w, ev, last)
+                except ValueError as ex:
+                    if "!" not in ev:
+                        raise
+                    # the un-faulted run of this event performed more mutations than this run reached
+                    res.stat("fault_points_not_reached")
+                    res.exhaustive = False
+                    _note(res, "%s in state of %r" % (ex, trace_of(i),))
+                    w.snapshot()
+                    continue
                 res.transitions += 1
+                if fkinds and ev in MARKER_EVENTS:
+                    # every file-system mutation the un-faulted event performed in this state is a fault point
+                    res.maxi("max_mutations_of_one_event", w.mutations)
+                    for k in range(1, w.mutations + 1):
+                        for kind in fkinds:
+                            todo.append("%s!%d!%s" % (ev, k, kind))
+                if "!" in ev:
+                    res.stat("faulted_transitions")
+                    res.stat("faulted_ended_" + obs[0])
                 ag = aged(after)
                 touched = sorted(set(os.path.basename(r) for r in set(ag) | set(ents) if ag.get(r) != ents.get(r)))
                 okind = obs[0]
@@ -1017,8 +1323,13 @@ def run_unit(unit, tier):
                     res.stat("events_that_raised")
                 elif okind == "exit":
                     res.stat("reads_that_exit_on_unparsable_file")
-                res.case(nontrivial=(bool(touched) or obs[0] == "id"),
-                         outcome="%s/%s/%s" % (ev.split(":")[0], okind, ",".join(touched) or "-"))
+                elif okind == "killed":
+                    res.stat("events_killed")
+                evname = ev.split(":")[0]
+                if "!" in ev:
+                    evname = "%s!%s" % (evname.split("!")[0], evname.split("!")[2])
+                res.case(nontrivial=(bool(touched) or obs[0] == "id" or w.fired is not None),
+                         outcome="%s/%s/%s" % (evname, okind, ",".join(touched) or "-"))
                 if viols:
                     init, tr = trace_of(i)
                     case = {"init": init, "trace": tr + [ev]}
@@ -1132,12 +1443,18 @@ def run_one_process(unit):
 
 TECHNIQUE = ("explicit-state breadth-first search to closure over a real configuration directory tree, transitions = "
              "the real marker / identifier functions, identifier-value symmetry reduction, shortest-trace counterexamples; "
-             "plus all short in-process event sequences")
+             "plus all short in-process event sequences; plus fault enumeration (fail / die at the k-th file-system mutation, "
+             "every k) of the marker operations inside the same search")
 LEVEL_TEXT = ("Every history of reads, regenerations (each with every enumerated subscription-identity answer), registrations, "
               "unregistrations, marker deletions and symlink plantings is covered, from every enumerated initial layout of the "
               "configuration directories, because the search runs until no new canonical state appears; the invariants are "
-              "evaluated on every transition of the real code on a real tmpfs tree.")
+              "evaluated on every transition of the real code on a real tmpfs tree. Register / unregister / marker deletion "
+              "are additionally cut short at every one of their file-system mutations (error return or death of the run), "
+              "and the state left behind - in which the two markers must still not exist together - is searched on from.")
 LEVEL_NOTE = ("Trusted: the identifier-value abstraction (argued in canon(), violations are re-executed concretely), the finite "
               "alphabet of initial file kinds, directory shapes and symlink targets, uuid4 / certificate reader / clock replaced "
-              "below the code under test; no concurrency between client runs, no other file kinds (directories, FIFOs) at marker "
-              "or identifier locations, no permission failures (root).")
+              "below the code under test; no concurrency between client runs, no other file kinds (FIFOs; directories only "
+              "in the fault units) at marker or identifier locations; one fault per operation, injected at the os / open "
+              "level of the interpreter (a mutation made by a child process or a C extension would not be seen); a kill still "
+              "unwinds Python frames (finally-blocks run but can no longer mutate the tree); faults inside identifier "
+              "reads / regenerations are not enumerated.")
